@@ -5,9 +5,9 @@ SPEC = {
     "units": [
         {"name": "history", "pkg": O4, "kind": "rapid", "run": "^TestVerifC04History$",
          "quick": {"checks": 250, "shards": 8, "timeout": 300},
-         "thorough": {"checks": 800, "shards": 16, "timeout": 3000}},
+         "thorough": {"checks": 12000, "shards": 16, "timeout": 3000}},
         {"name": "history-race", "pkg": O4, "kind": "rapid", "run": "^TestVerifC04History$", "tiers": ("thorough",),
-         "thorough": {"checks": 150, "shards": 8, "timeout": 3000, "race": True}},
+         "thorough": {"checks": 500, "shards": 8, "timeout": 3000, "race": True}},
         {"name": "near-capacity", "pkg": O4, "kind": "plain", "run": "^TestVerifC04NearCapacity$",
          "quick": {"timeout": 300}, "thorough": {"timeout": 600}},
         {"name": "hour-rollover", "pkg": O4, "kind": "plain", "run": "^TestVerifC04HourRollover$",
